@@ -92,12 +92,6 @@ class IOHarness(Harness):
             self._ptr_mask = (1 << w) - 1
         self.local_mask(0)
 
-    def _label(self, nm: str) -> int:
-        # the harness' own labels are top-level: exact match first (a macro-local `done`, `end`, `x` must not win)
-        if nm in self.labels:
-            return self.labels[nm]
-        return super()._label(nm)
-
     def buf_word(self, lab: str, i: int) -> int:
         return (self.buf_addr[lab] + i * 2 * self.w) // self.w + 1
 
